@@ -20,7 +20,7 @@ TargetKinds == {"local", "aux1", "aux2", "aux3", "trans", "selfrec", "mutual", "
 Shapes      == {"prim", "object", "arrayref", "tuple", "allof", "map", "nested", "ptrarray", "ref"}
 HolderKinds == {"prop", "items", "tuple", "addprops", "additems", "allof", "alias", "opbody", "pathbody",
                 "code", "default", "sharedparam", "sharedresp", "nested", "opnested", "opitems",
-                "auxresp", "auxparam", "auxpathitem", "unusedparam", "unusedresp", "unusedalias", "casesiblings", "pathbodyinline", "oddcode",
+                "auxresp", "auxparam", "auxpathitem", "unusedparam", "unusedresp", "unusedalias", "casesiblings", "pathbodyinline", "oddcode", "dupids",
                 "patprop", "anyof", "oneof", "not", "nesteddefs"}
 AuxHolders  == {"auxresp", "auxparam", "auxpathitem"}
 SecondKinds == {"none", "code", "prop2", "same"}
@@ -174,6 +174,11 @@ Holder(h, REF) ==
     [] h = "oddcode"  -> inOp(PathItemWith([get |-> Op([responses |-> Mk(<<>>, ("299" :> Resp([schema |-> ObjP([N_9 |-> REF, N_10 |-> Str])]) @@
                                                                                  "520" :> Resp([schema |-> Mk([type |-> "array"], [items |-> ObjP([N_11 |-> REF])])]) @@
                                                                                  "200" :> Resp([schema |-> REF])))])]))
+    \* operations that share one operationId (not valid Swagger, but loadable and in W), with inline complex schemas whose generated
+    \* names derive from that id: GET P_1 / POST P_5 share "dup", POST P_1 / GET P_5 share "dup2" (P_5: see Assemble), so that method
+    \* order and path order disagree for one of the pairs however the paths are spelled
+    [] h = "dupids"   -> inOp(PathItemWith([get  |-> OpId("dup", [responses |-> Mk(<<>>, ("200" :> Resp([schema |-> ObjP([N_9 |-> REF, N_10 |-> Str])])))]),
+                                            post |-> OpId("dup2", [parameters |-> ListOf(<<BodyParam(ObjP([N_11 |-> REF]))>>), responses |-> OkResponses])]))
     [] h = "opitems"  -> inOp(PathItemWith([head |-> Op([responses |-> Mk(<<>>, ("200" :> Resp([schema |-> Mk([type |-> "array"], [items |-> REF])])))])]))
     [] h \in AuxHolders -> [defs |-> <<>>, params |-> <<>>, resps |-> <<>>, path |-> AuxHolderRoot(h)]
     \* shared objects that no operation uses (they disappear with RemoveUnused, and so must what only they refer to)
@@ -240,6 +245,9 @@ Assemble(t, s, h, h2, c) ==
       xp     == IF h = "pathbodyinline"
                 THEN ("X_1" :> PathItemWith([put |-> OpId("puttwo", [responses |-> OkResponses]), post |-> OpId("posttwo", [responses |-> OkResponses]),
                                              get |-> OpId("gettwo", [responses |-> OkResponses])]))
+                ELSE IF h = "dupids"
+                THEN ("P_5" :> PathItemWith([get  |-> OpId("dup2", [responses |-> Mk(<<>>, ("200" :> Resp([schema |-> ObjP([N_12 |-> Int])])))]),
+                                             post |-> OpId("dup", [parameters |-> ListOf(<<BodyParam(ObjP([N_13 |-> Str]))>>), responses |-> OkResponses])]))
                 ELSE <<>>
       paths  == ("P_1" :> H.path) @@ S2.path @@ C.path @@ dia @@ xp
       extra  == (IF DOMAIN params = {} THEN <<>> ELSE [parameters |-> Mk(<<>>, params)]) @@
